@@ -135,12 +135,27 @@ fn c19_check(c: &StreamCase, st: &mut Stats) -> CheckResult {
     {
         let (s_in, r_in) = crossbeam_channel::unbounded::<BddNode>();
         let (s_mid, r_mid) = crossbeam_channel::unbounded::<BddNode>();
+        // either the dedicated constructors or a plain store whose channels are set afterwards
+        let setters = c.sched.len() % 3 == 1;
         let mut relay = Mirror {
             bdd: if c.chain {
-                Bdd::with_sender_receiver(s_mid, r_in)
+                if setters {
+                    let mut b = Bdd::new();
+                    b.set_sender(s_mid);
+                    b.set_receiver(r_in);
+                    b
+                } else {
+                    Bdd::with_sender_receiver(s_mid, r_in)
+                }
             } else {
                 drop(s_mid);
-                Bdd::with_receiver(r_in)
+                if setters {
+                    let mut b = Bdd::new();
+                    b.set_receiver(r_in);
+                    b
+                } else {
+                    Bdd::with_receiver(r_in)
+                }
             },
             name: if c.chain { "relay" } else { "receiver" },
         };
